@@ -94,6 +94,7 @@ def run_write_session(fs: SimFS, sess: dict, kind: str = "path", bufsize: int = 
         for which, arg in sess.get("header_extra") or []:
             (z.set_encoded_header_mode if which == "encoded" else z.set_encrypted_header)(arg)
         first = True
+        refused_log = []
         for i, op in enumerate(sess["ops"]):
             data = content_bytes(op) if "content" in op else None
             try:
@@ -134,6 +135,15 @@ def run_write_session(fs: SimFS, sess: dict, kind: str = "path", bufsize: int = 
                             added.append(Mem(nm, payload, "file", _tree.to_filetime(e["mtime_ns"]), e["mode"]))
                         else:
                             added.append(Mem(nm, payload.encode("utf-8"), "symlink", None, None))
+                elif op["op"] == "refused":
+                    # a call the caller expects to fail, catches, and carries on after (the histories of C15): the archive must come out
+                    # as if the call had never been made
+                    try:
+                        _refused_call(z, op)
+                    except (OSError, ValueError, UnicodeError, TypeError) as e:
+                        refused_log.append((op["how"], type(e).__name__))
+                        continue
+                    raise RuntimeError("harness: the %r call was expected to be refused and was accepted" % op["how"])
                 else:
                     raise ValueError(op["op"])
             except py7zr.exceptions.UnsupportedCompressionMethodError as e:
@@ -190,6 +200,32 @@ def _materialize_source(op):
     os.chmod(p, op.get("mode", 0o644))
     os.utime(p, ns=(op["mtime_ns"], op["mtime_ns"]))
     return p
+
+
+def _refused_call(z, op):
+    d = _src_dir()
+    _SRC_COUNTER[0] += 1
+    base = os.path.join(d, "r%d" % _SRC_COUNTER[0])
+    how = op["how"]
+    if how == "missing":
+        z.write(base + "-absent", op["name"])
+    elif how == "link_to_undecodable":
+        # a link to an existing file whose name is no UTF-8: the link text cannot be stored
+        os.mkdir(base)
+        target = os.path.join(os.fsencode(base), b"caf\xe9.txt")
+        with open(target, "wb") as f:
+            f.write(b"x")
+        os.symlink(b"caf\xe9.txt", os.path.join(os.fsencode(base), b"lnk"))
+        z.write(os.path.join(base, "lnk"), op["name"])
+    elif how == "fifo":
+        os.mkfifo(base)
+        z.write(base, op["name"])
+    elif how == "surrogate_name":
+        z.writestr(b"never stored", op["name"] + "\udc80")
+    elif how == "missing_tree":
+        z.writeall(base + "-absent-dir", op["name"])
+    else:
+        raise ValueError(how)
 
 
 def _materialize_tree(op):
